@@ -196,7 +196,10 @@ def eval_two_groups(args):
         else:
             imp = ''; g2decl = f'<xs:attributeGroup name="G2"><xs:anyAttribute {pool[g2]["attr"]} processContents="skip"/></xs:attributeGroup>'; ref2 = 't:G2'
         open(os.path.join(d, 'm.xsd'), 'w').write(f'<xs:schema {XSN} targetNamespace="urn:t" xmlns:t="urn:t" xmlns:u="urn:u">{imp}<xs:attributeGroup name="G1"><xs:anyAttribute {pool[g1]["attr"]} processContents="skip"/></xs:attributeGroup>{g2decl}'
-                                              f'<xs:complexType name="T2"><xs:attributeGroup ref="t:G1"/><xs:attributeGroup ref="{ref2}"/></xs:complexType><xs:element name="two" type="t:T2"/></xs:schema>')
+                                              f'<xs:complexType name="T2"><xs:attributeGroup ref="t:G1"/><xs:attributeGroup ref="{ref2}"/></xs:complexType><xs:element name="two" type="t:T2"/>' +
+                                              # XSD 1.1 (where every union is expressible): the wildcard of the second group comes in through an extension of a type that has the first
+                                              (f'<xs:complexType name="B1"><xs:attributeGroup ref="t:G1"/></xs:complexType><xs:complexType name="E1"><xs:complexContent><xs:extension base="t:B1"><xs:attributeGroup ref="{ref2}"/>'
+                                               '</xs:extension></xs:complexContent></xs:complexType><xs:element name="ext" type="t:E1"/>' if ver == '1.1' else '') + '</xs:schema>')
         try: s = _cls(ver)(os.path.join(d, 'm.xsd'))
         except xmlschema.XMLSchemaException: return None
         w1 = dict(pool[g1]['w'], tns='urn:t'); w2 = dict(pool[g2]['w'], tns='urn:u' if foreign else 'urn:t'); bad = []
@@ -208,6 +211,11 @@ def eval_two_groups(args):
             try: got = s.is_valid(doc)
             except Exception as e: got = 'raised ' + type(e).__name__
             if got != exp: bad.append(('two', name, got, exp))
+            if ver == '1.1':
+                exp = spec.denote_name(w1, name) or spec.denote_name(w2, name)
+                try: got = s.is_valid(doc.replace('<t:two ', '<t:ext '))
+                except Exception as e: got = 'raised ' + type(e).__name__
+                if got != exp: bad.append(('ext', name, got, exp))
         return dict(args=args, bad=bad) if bad else False
     finally: shutil.rmtree(d, ignore_errors=True)
 
@@ -248,7 +256,7 @@ def run(tier, seed, open_findings):
     tjobs = [(g1, g2, ver, fr) for ver in ('1.0', '1.1') for g1 in (GW11 if ver == '1.1' else GW) for g2 in (GW11 if ver == '1.1' else GW) for fr in (False, True)]
     tres = pmap(eval_two_groups, tjobs, chunk=4)
     tfail = [dict(case=dict(two_groups=list(r['args'])), observed=[list(b) for b in r['bad'][:4]], required='a type that references two attribute groups admits the intersection of their wildcards') for r in tres if r]
-    extra2 = result('C03.two_attribute_groups_intersection', f'{len(tjobs)} schemas: one type referencing two attribute groups with wildcards (5 x 5 constraints under XSD 1.0, 9 x 9 with notNamespace / notQName under XSD 1.1; the second group in the same or in an imported schema) x 6 attribute names',
+    extra2 = result('C03.two_attribute_groups_intersection', f'{len(tjobs)} schemas: one type referencing two attribute groups with wildcards, and under XSD 1.1 an extension that adds the second group to a type with the first: the union (5 x 5 constraints under XSD 1.0, 9 x 9 with notNamespace / notQName under XSD 1.1; the second group in the same or in an imported schema) x 6 attribute names',
                     len(tjobs) * 6, tfail, exhaustive=True, samples=[dict(g1='##any', g2='##any notQName=x:foo')], distinct=sum(1 for r in tres if r is not None) * 6)
     fjobs = [(d, f, pl, ver) for d in (None, 'unqualified', 'qualified') for f in (None, 'unqualified', 'qualified') for pl in ('type', 'group') for ver in ('1.0', '1.1')]
     fres = [eval_forms(j) for j in fjobs]
